@@ -243,16 +243,20 @@ func runC02(w *W) {
 				}
 				if !bytes.Equal(r.Out, exp) {
 					facts["diff"] = diffShape(r.Out, exp)
+					// the residue of F02 is looked for relative to the encoding that carries the stray bytes of F43, when
+					// the document has api.js_conv i16 members (two open native findings in one output)
+					ref, refwo := exp, wo
 					if style.UsedJSConvI16 > 0 {
 						wo43 := wo
 						wo43.F43JSConvI16 = true
 						exp43, _ := expectJ2T(append([]byte{}, baseBytes...), val, wo43)
 						facts["equals_f43_model"] = fmt.Sprint(bytes.Equal(r.Out, exp43))
+						ref, refwo = exp43, wo43
 					}
 					if len(baseBytes) == 0 {
-						facts["null_header_residue"] = fmt.Sprint(nullHeaderResidue(r.Out, exp, val, wo))
+						facts["null_header_residue"] = fmt.Sprint(nullHeaderResidue(r.Out, ref, val, refwo))
 					} else if bytes.HasPrefix(r.Out, baseBytes) {
-						facts["null_header_residue"] = fmt.Sprint(nullHeaderResidue(r.Out[len(baseBytes):], exp[len(baseBytes):], val, wo))
+						facts["null_header_residue"] = fmt.Sprint(nullHeaderResidue(r.Out[len(baseBytes):], ref[len(baseBytes):], val, refwo))
 					}
 					w.Failf("wrong-bytes", facts, "output differs from the reference encoding (env %s)\n got: %x\nwant: %x\njson: %s", env, clipb(r.Out, 400), clipb(exp, 400), clip(js, 400))
 				}
